@@ -125,7 +125,7 @@ ENTRIES = {
     "halpern_iteration": E(FP, "wc_halpern_iteration", "tight", prod(n=[1, 3, 10])),
     "krasnoselskii_mann_constant_step_sizes": E(FP, "wc_krasnoselskii_mann_constant_step_sizes", "tight", prod(n=[3, 10], gamma=[0.75, 0.6])),
     "optimal_contractive_halpern_iteration": E(FP, "wc_optimal_contractive_halpern_iteration", "tight", prod(n=[1, 3, 5], gamma=[1.13, 1.5])),
-    "inconsistent_halpern_iteration": E(FP, "wc_inconsistent_halpern_iteration", "upper", prod(n=[5, 25])),
+    "inconsistent_halpern_iteration": E(FP, "wc_inconsistent_halpern_iteration", "upper", prod(n=[1, 2, 3, 4, 5, 25])),
     # ---- potential functions / adaptive (absolute precision in the tests)
     "gradient_descent_lyapunov_1": E(PF, "wc_gradient_descent_lyapunov_1", "tight", [dict(L=L, gamma=1 / L, n=n) for L in (1.0, 2.0) for n in (1, 10)], abs_tol=5e-5),
     "gradient_descent_lyapunov_2": E(PF, "wc_gradient_descent_lyapunov_2", "tight", [dict(L=L, gamma=1 / L, n=n) for L in (1.0, 2.0) for n in (1, 10)], abs_tol=5e-5),
